@@ -7,3 +7,4 @@ import Adsg.Props.C20
 #print axioms Adsg.C20.initOK_iff
 #print axioms Adsg.C20.resolve_rejects_missing_case
 #print axioms Adsg.C20.resolve_nested_irrelevant
+#print axioms Adsg.C20.mapsWF_iff
